@@ -337,7 +337,7 @@ class DatasetOnDisk(GetSetDelAttrMixin, NetCDFOnDisk, AbstractDataset):
         #     raise TypeError("Can only write Dataset, use `ds[name] = dima` to write a DimArray")
         _, nctype, cf_attrs = maybe_encode_values(dima, format=self._ds.file_format)
 
-        name = name or getattr(self, "name", None)
+        name = name or getattr(dima, "name", None)
         if not name:
             raise ValueError("Need to provide variable name")
 
